@@ -28,7 +28,7 @@ TECHNIQUE = (
 RULE = (
     "case = (data seed, 1500-4000 spectra each with one target and one decoy PSM in random order, pi1 0.3-0.6, 3-6 "
     "features, separation 2-3 sigma, learner, folds 2-5, FDR 0.05/0.1/0.3, optional subset_max_train below the training "
-    "size, optional prediction chunk smaller than the file, workers). Each case reports the FDP at alpha in "
+    "size, optional prediction chunk smaller than the file, workers, one or two jointly modelled collections). Each case reports the FDP at alpha in "
     "{0.01, 0.02, 0.05, 0.1} at PSM and peptide level. Non-trivial: all folds trained and >= 30 targets accepted at "
     "alpha = 0.05. Distinct = distinct canonical JSON."
 )
@@ -66,6 +66,7 @@ def _case(draw, tier):
         "predict_chunk": draw(st.sampled_from([None, None, 0.37, 0.61, 0.9])),
         "workers": draw(st.sampled_from([1, 1, 2, 4])),
         "rng": draw(st.integers(0, 10**6)),
+        "ncoll": draw(st.sampled_from([1, 1, 2])),
     }
 
 
@@ -92,7 +93,7 @@ def _simulate(case):
                 pep = null_pool[int(rng.integers(0, n))]
             else:
                 pep = dec_pool[int(rng.integers(0, n))]
-            rows.append((f"psm{len(rows)}", 1 if is_t else -1, 1000 + s, round(700.0 + s * 0.5, 2), *[round(float(x), 5) for x in feats], pep,
+            rows.append((f"psm{len(rows)}", 1 if is_t else -1, 1000 + s + case.get("scan_offset", 0), round(700.0 + s * 0.5, 2), *[round(float(x), 5) for x in feats], pep,
                          "P" if is_t else "decoy_P", corr))
     cols = ["SpecId", "Label", "ScanNr", "ExpMass"] + [f"f{j}" for j in range(k)] + ["Peptide", "Proteins", "_correct"]
     df = pd.DataFrame(rows, columns=cols)
@@ -121,62 +122,81 @@ def check(case):
     import mokapot
 
     config_inject.install_pep_stub()
-    df, truth = _simulate(case)
-    n = len(df)
+    ncoll = case.get("ncoll", 1)
+    sims = []
+    for ci in range(ncoll):
+        # other spectrum keys in the second collection, so that its fold assignment differs from the first one's
+        sub = {**case, "seed": case["seed"] + 7717 * ci, "n": case["n"] if ci == 0 else max(600, case["n"] * 2 // 3), "scan_offset": 50021 * ci}
+        df, truth = _simulate(sub)
+        if ci:
+            df["SpecId"] = [f"c{ci}_{x}" for x in df["SpecId"]]
+            truth = {f"c{ci}_{k}": v for k, v in truth.items()}
+        sims.append((df, truth))
     feats = [f"f{j}" for j in range(case["nfeat"])]
+    offset = 0
+    for ci, (df, truth) in enumerate(sims):
+        if case["learner"] == "memo":
+            df.insert(4 + case["nfeat"], "rid", np.arange(offset, offset + len(df), dtype=float))
+        offset += len(df)
     if case["learner"] == "memo":
-        df.insert(4 + case["nfeat"], "rid", np.arange(n, dtype=float))
         feats = feats + ["rid"]
-    meta = {"key_cols": ["ScanNr", "ExpMass"], "features": feats, "levels": ["Peptide"], "is_target": (df["Label"] == 1).values}
+    n = len(sims[0][0])
     counters = {}
     with scratch_dir() as tmp:
-        path = tmp / "sim.pin"
-        datagen.write_table(df, path)
-        ds = datagen.build_ondisk(path, df, meta)
+        dss = []
+        for ci, (df, truth) in enumerate(sims):
+            meta = {"key_cols": ["ScanNr", "ExpMass"], "features": feats, "levels": ["Peptide"], "is_target": (df["Label"] == 1).values}
+            path = tmp / f"sim{ci}.pin"
+            datagen.write_table(df, path)
+            dss.append(datagen.build_ondisk(path, df, meta))
         cap = None
+        ntot = sum(len(d) for d, _ in sims)
         if case["cap"]:
-            cap = int(case["cap"] * n * (case["folds"] - 1) / case["folds"])
+            cap = int(case["cap"] * ntot * (case["folds"] - 1) / case["folds"])
         pc = int(case["predict_chunk"] * n) if case["predict_chunk"] else None
         try:
             with config_inject.chunk_sizes(predict=pc):
-                _, models, scores, descs = guarded(mokapot.brew, [ds], _model(case), test_fdr=case["fdr"], folds=case["folds"],
+                _, models, scores, descs = guarded(mokapot.brew, dss, _model(case), test_fdr=case["fdr"], folds=case["folds"],
                                                    max_workers=case["workers"], rng=case["rng"], subset_max_train=cap,
-                                                   allowed=ALLOWED_BREW, sig="brew")
+                                                   allowed=ALLOWED_BREW + [(ValueError, "Cannot take a larger sample")], sig="brew")
         finally:
             recorder.drop_log("c04")
         trained = all(m.is_trained for m in models)
-        guarded(mokapot.assign_confidence, [ds], max_workers=1, scores=[np.asarray(s, dtype=float).ravel() for s in scores],
-                descs=list(descs), eval_fdr=case["fdr"], dest_dir=tmp, prefixes=[None], decoys=False, peps_algorithm="verif_stub",
+        prefixes = [f"c{ci}" for ci in range(ncoll)] if ncoll > 1 else [None]
+        guarded(mokapot.assign_confidence, dss, max_workers=1, scores=[np.asarray(s, dtype=float).ravel() for s in scores],
+                descs=list(descs), eval_fdr=case["fdr"], dest_dir=tmp, prefixes=prefixes, decoys=False, peps_algorithm="verif_stub",
                 sig="assign_confidence")
         res = {}
-        for level in ("psms", "peptides"):
-            t = pd.read_csv(tmp / f"targets.{level}", sep="\t", usecols=["PSMId", "q-value"])
-            wrong = ~t["PSMId"].map(truth).astype(bool).values
-            q = t["q-value"].values
-            for a in ALPHAS:
-                acc = q <= a
-                R = int(acc.sum())
-                V = int((acc & wrong).sum())
-                res[(level, a)] = (R, V)
-    r05 = res[("psms", 0.05)][0]
-    for (level, a), (R, V) in res.items():
+        for ci, (df, truth) in enumerate(sims):
+            pre = f"c{ci}." if ncoll > 1 else ""
+            for level in ("psms", "peptides"):
+                t = pd.read_csv(tmp / f"{pre}targets.{level}", sep="\t", usecols=["PSMId", "q-value"])
+                wrong = ~t["PSMId"].map(truth).astype(bool).values
+                q = t["q-value"].values
+                for a in ALPHAS:
+                    acc = q <= a
+                    res[(ci, level, a)] = (int(acc.sum()), int((acc & wrong).sum()))
+    r05 = res[(0, "psms", 0.05)][0]
+    for (ci, level, a), (R, V) in res.items():
         fdp = V / max(1, R)
         if R >= 100:
             require(fdp <= max(5 * a, 0.25), "gross-fdp",
-                    f"{level} at q<={a}: {V} of {R} accepted targets are incorrect (FDP {fdp:.3f}) with learner {case['learner']}, "
-                    f"folds {case['folds']}, cap {cap}, prediction chunk {pc}, workers {case['workers']}")
+                    f"{level} at q<={a} (collection {ci + 1} of {ncoll}): {V} of {R} accepted targets are incorrect (FDP {fdp:.3f}) with learner "
+                    f"{case['learner']}, folds {case['folds']}, cap {cap}, prediction chunk {pc}, workers {case['workers']}")
         if trained:
             # FDR = E[FDP] with FDP = 0 when nothing is accepted: every trained replicate counts
             cell = f"{case['learner']}|{level}|{a}"
-            counters[cell + "|n"] = 1
-            counters[cell + "|sum"] = fdp
-            counters[cell + "|sumsq"] = fdp * fdp
-            counters[cell + "|R"] = R
+            counters[cell + "|n"] = counters.get(cell + "|n", 0) + 1
+            counters[cell + "|sum"] = counters.get(cell + "|sum", 0.0) + fdp
+            counters[cell + "|sumsq"] = counters.get(cell + "|sumsq", 0.0) + fdp * fdp
+            counters[cell + "|R"] = counters.get(cell + "|R", 0) + R
     classes = [case["learner"], f"folds{case['folds']}"]
     if cap:
         classes.append("cap-active")
     if pc:
         classes.append("partial-predict-chunk")
+    if ncoll > 1:
+        classes.append("two-collections")
     if not trained:
         classes.append("fallback-or-untrained")
     return {"nontrivial": trained and r05 >= 30, "classes": classes, "counters": counters}
